@@ -97,6 +97,8 @@ def witness(kind, lenclass, feat, thr, rng, disk):
             s = s[:n] if not s[:n].endswith('\r') else s[:n - 1] + 'a'
             if any(FEATCH[f] not in s for f in feat):
                 return None
+        if any(FEATCH[f] not in s for f in feat) or ('BOM' in feat and not s.startswith('\ufeff')):
+            return None                # the features overwrote each other in a very short text: no witness
         return s
     if kind == 'bytes':
         return bytes(rng.randrange(256) for _ in range(min(n, 300))) + b'\r\n\x00' * 0 + bytes([n % 251]) * max(0, n - 300)
